@@ -108,7 +108,7 @@ func TestC13Partial(t *testing.T) {
 	r := rec.For("C13Partial")
 
 	rapid.Check(t, prop(r, func(t *rapid.T) {
-		ss := gen.CoherentSchema(t, gen.SchemaOpts{MinTypes: 1, MaxTypes: 2, MaxAttrs: 6, MaxRelEdges: 5, AllKindsChance: 12, AllowTypeField: true, RawStructRels: true})
+		ss := gen.CoherentSchema(t, gen.SchemaOpts{MinTypes: 1, MaxTypes: 2, MaxAttrs: 6, MaxRelEdges: 5, AllKindsChance: 12, AllowTypeField: true, RawStructRels: true, OddFromType: true})
 		ts := &ss.Types[rapid.IntRange(0, len(ss.Types)-1).Draw(t, "type")]
 		pc := gen.ResourcePayload(t, ts, gen.PayloadOpts{IllPerTen: 1, IllRelPerTen: 2, UnknownPerTen: 1, OddIdentPerTen: 1})
 
